@@ -7,7 +7,7 @@
    frees two members at once) is answered by [-7] on both sides: such cases
    are checked by the laws only. *)
 From Coq Require Import ZArith List Bool.
-From V Require Import Base.Codec C14.Model C14.Laws.
+From V Require Import Base.Codec C14.Model C14.Laws C14.LawsPlace.
 Import ListNotations.
 Open Scope Z_scope.
 
@@ -109,6 +109,11 @@ Definition entry (sel : Z) (toks : list Z) : list Z :=
              tag 4 ++ flat_map (fun k => match get_ancestors hn k with
                                          | Some l => eList ePos l | None => [-888] end) ans
          | None => bad_input end
+  (* sel 3: a real allocate trace; the action itself is not modelled, the entry only
+     validates the shape of the input — the substance is law 108 on the binds *)
+  | 3 => match run_dec (let* d := dZ in let* leaves := dList (dPair dPos (dList dZ)) in
+                        let* job := dList dZ in let* pods := dList (dList dZ) in ret (d, leaves, job, pods)) toks with
+         | Some _ => [1] | None => bad_input end
   (* ---- laws on the implementation's results ---- *)
   | 101 => match run_dec (let* e := dEnv in let* objs := dList dObj in let* v := dView in ret (e, objs, v)) toks with
            | Some (e, objs, v) => eBool (law_view e objs v) | None => bad_input end
@@ -126,6 +131,14 @@ Definition entry (sel : Z) (toks : list Z) : list Z :=
            | Some (e, objs, v) => eBool (law_view_nosel e objs v) | None => bad_input end
   | 112 => match run_dec (let* objs := dList dObj in let* a := dView in let* b := dView in ret (objs, a, b)) toks with
            | Some (objs, a, b) => eBool (law_fresh_nosel objs a b) | None => bad_input end
+  | 108 => match run_dec (let* hn := dList dInfo in let* real := dList (dPair dPos (dList dPos)) in
+                          let* limit := dZ in let* r := dOptPos in let* nodes := dList dPos in
+                          ret (hn, real, limit, r, nodes)) toks with
+           | Some (hn, real, limit, r, nodes) => eBool (law_placement hn real limit r nodes) | None => bad_input end
+  | 109 => match run_dec (let* hn := dList dInfo in let* real := dList (dPair dPos (dList dPos)) in
+                          let* limit := dZ in let* r := dOptPos in let* nodes := dList dPos in
+                          ret (hn, real, limit, r, nodes)) toks with
+           | Some (hn, real, limit, r, nodes) => eBool (law_recorded hn real limit r nodes) | None => bad_input end
   | 106 => match run_dec (let* objs := dList dObj in let* v := dView in ret (objs, v)) toks with
            | Some (objs, v) => eBool (law_bad_not_ready objs v) | None => bad_input end
   | 107 => match run_dec dBool toks with
